@@ -1182,6 +1182,8 @@ class Interp:
         closure = getattr(fv, 'closure', None)
         fr = Frame(fi, fi.module, {}, cls=defcls, parent=closure)
         self.bind_params(fi.node.args, args, kwargs, fr, Frame(None, fi.module, {}, cls=defcls, parent=closure))
+        if self.depth == 0 and getattr(self, 'top_old', None) is not None:
+            fr.locals['__old__'] = self.top_old       # old(...) is available in loop invariants of the verified function
         if _is_generator(fi.node):
             raise Unsupported(f'generator function {fi.qualname}')
         if not self.noforking and _simple_pure(fi.node):
